@@ -586,6 +586,7 @@ func implHist(h caseHead, raw []byte) map[string]any {
 	var positions []map[string]any
 	allSame := true
 	firstSeen := map[string]string{}
+	var workerCh chan events.Event
 	ctxDir := ""
 	if len(hh.Ctx) > 0 {
 		if dir, err := os.MkdirTemp("", "acvhist"); err == nil {
@@ -613,9 +614,38 @@ func implHist(h caseHead, raw []byte) map[string]any {
 		if k < len(hh.RCs) && hh.RCs[k] != nil {
 			rc = rcOf(caseHead{RC: hh.RCs[k]})
 		}
+		// one history in three hands every call an event channel through ONE variable of the caller (a worker that keeps its
+		// channel in a field and makes a new channel per job): each call's channel is closed when that call returns
+		var evCh *chan events.Event
+		var drained chan int
+		if h.Id%3 == 2 {
+			workerCh = make(chan events.Event, 64)
+			evCh = &workerCh
+			drained = make(chan int, 1)
+			go func(c chan events.Event) {
+				n := 0
+				for range c {
+					n++
+				}
+				drained <- n
+			}(workerCh)
+		}
 		k1, r1 := one(func() (string, error) {
-			return pkg.ValidateCompiledWithConfiguration(compiled, doc, dbg(h.Profile, doc), nil, fixedClock{}, rc)
+			return pkg.ValidateCompiledWithConfiguration(compiled, doc, dbg(h.Profile, doc), evCh, fixedClock{}, rc)
 		})
+		chanClosed, nEvents := any(nil), any(nil)
+		if evCh != nil {
+			select {
+			case n := <-drained:
+				chanClosed, nEvents = true, n
+			case <-time.After(2 * time.Second):
+				chanClosed = false
+				func() {
+					defer func() { recover() }()
+					close(workerCh)
+				}()
+			}
+		}
 		k2, r2 := one(func() (string, error) {
 			return pkg.ValidateWithConfiguration(h.Profile, doc, dbg(h.Profile, doc), nil, fixedClock{}, rc)
 		})
@@ -631,8 +661,15 @@ func implHist(h caseHead, raw []byte) map[string]any {
 		} else {
 			firstSeen[rk] = k1 + "\n" + r1
 		}
-		positions = append(positions, map[string]any{"compiled": k1, "fresh": k2, "same": same, "repeatSame": repeatSame, "bytes": len(r1),
-			"hash": fmt.Sprintf("%x", sha256.Sum256([]byte(r1)))})
+		pos := map[string]any{"compiled": k1, "fresh": k2, "same": same, "repeatSame": repeatSame, "bytes": len(r1),
+			"hash": fmt.Sprintf("%x", sha256.Sum256([]byte(r1)))}
+		if evCh != nil {
+			pos["chanClosed"], pos["nEvents"] = chanClosed, nEvents
+			if k1 == "panic" {
+				pos["panic"] = r1
+			}
+		}
+		positions = append(positions, pos)
 	}
 	res["outcome"] = "ok"
 	res["allSame"] = allSame
@@ -686,6 +723,12 @@ func implC03(h caseHead, raw []byte) map[string]any {
 		case 1:
 			rep, err = pkg.ValidateCompiled(compiled, h.Data, ch.Debug, nil)
 		case 3:
+			if h.Id%2 == 1 {
+				// the compiled profile has been used before, for the same document, under ANOTHER configuration (other instant, other
+				// schema IRIs, the date switched the other way): a report states the configuration of its own call
+				decoy := config.ReportConfiguration{IncludeReportCreationTime: !rc.IncludeReportCreationTime, ReportSchemaIri: rc.ReportSchemaIri + "-other", LexicalSchemaIri: rc.LexicalSchemaIri + "-other"}
+				pkg.ValidateCompiledWithConfiguration(compiled, h.Data, ch.Debug, nil, clockAt{t.Add(-17 * time.Hour)}, decoy)
+			}
 			rep, err = pkg.ValidateCompiledWithConfiguration(compiled, h.Data, ch.Debug, nil, clockAt{t}, rc)
 		default:
 			rep, err = pkg.ValidateWithConfiguration(h.Profile, h.Data, ch.Debug, nil, clockAt{t}, rc)
@@ -1219,7 +1262,7 @@ func implC15(h caseHead, raw []byte) map[string]any {
 		}
 		set := map[string]bool{}
 		for _, x := range rv.Results {
-			set[x.Severity+"|"+x.Shape+"|"+x.Focus] = true
+			set[x.Severity+"|"+x.Shape+"|"+x.Focus+"|"+x.Message] = true
 		}
 		r["results"] = sortedKeys(set)
 		r["pairs"] = rv.Pairs()
